@@ -336,11 +336,39 @@ def parse_interrupt_dispatch(U):
             U.prove(f"parse_interrupt[number].path{p}.dt_kept", P, to_z3(r.attrs["dt"]) == dt)
 
 
+def fixed_init_unit(U):
+    """FixedInterrupts.__init__ / copy: the schedule object holds exactly the given times in the given order (a single
+    number becomes a one-element list), copies hold the same times in their own array"""
+    from ..arrays import NDArr
+
+    def body(it):
+        cls = _cls(it, "FixedInterrupts")
+        a = [z3.Real(f"a{i}") for i in range(3)]
+        lst = it.instantiate(cls, [list(a)], {})
+        single = it.instantiate(cls, [a[0]], {})
+        cp = it.call(it.getattr(lst, "copy"), [], {})
+        return a, lst, single, cp
+
+    for p, res in enumerate(explore_paths(U, body)):
+        P = prem_of(res.ctx)
+        if res.outcome != "return":
+            U.prove(f"Fixed.__init__.path{p}.returns_normally", P, z3.BoolVal(False), info={"exc": str(res.exc)})
+            continue
+        a, lst, single, cp = res.value
+        for name, obj, want in (("list", lst, a), ("single_number", single, a[:1]), ("copy", cp, a)):
+            arr = obj.attrs.get("interrupts")
+            ok = isinstance(arr, NDArr) and arr.ndim == 1 and arr.shape[0] == len(want)
+            U.prove(f"Fixed.__init__.path{p}.{name}.holds_the_given_times_in_order", P,
+                    z3.And(z3.BoolVal(bool(ok)), *[to_z3(arr.read((i,))) == want[i] for i in range(len(want))]) if ok else z3.BoolVal(False))
+        U.prove(f"Fixed.__init__.path{p}.copy_has_its_own_array", P, z3.BoolVal(cp.attrs["interrupts"].buf is not lst.attrs["interrupts"].buf))
+
+
 UNITS = [
     ("Constant.initialize", constant_initialize),
     ("Constant.next", constant_next),
     ("Logarithmic.__init__", logarithmic_init),
     ("Logarithmic.next", logarithmic_next),
+    ("Fixed.__init__", fixed_init_unit),
     ("Fixed.initialize", fixed_initialize),
     ("Fixed.next", fixed_next),
     ("Fixed.exhausted", fixed_exhausted),
@@ -354,7 +382,7 @@ ASSUMPTIONS = [
     "GeometricInterrupts: scale > 0, factor > 1, queries t > 0; power/log axioms as listed",
     "queries need not be monotone for the proved clauses; 'up to round-off' is exact in real arithmetic",
 ]
-NOT_COVERED = ["RealtimeInterrupts (wall clock; the statement says deterministic types)", "np.atleast_1d normalisation of the list in FixedInterrupts.__init__"]
+NOT_COVERED = ["RealtimeInterrupts (wall clock; the statement says deterministic types)"]
 
 
 def bounded(tier, seed):
